@@ -3,7 +3,7 @@
    hand-written forward / adjoint pairs are adjoint and linear, for every size.
    Final statements only. *)
 From Coq Require Import QArith Qcanon List.
-From PV Require Import Dict Vec Dot QcInst Slice Deriv Deriv2 DerivSpec DerivStencil DerivND.
+From PV Require Import Dict Vec Dot QcInst Slice Deriv Deriv2 DerivSpec DerivStencil DerivND Causal.
 Import ListNotations.
 Open Scope nat_scope.
 
@@ -72,3 +72,28 @@ Print Assumptions C07a_laplacian_meets_doc.
 Example C07a_laplacian_example :
   map (map this) (lap2_coded QcF Forward false q1 q1 q1 q1 3 3 X33) = [[2#1; 0#1; 0#1]; [0#1; 0#1; 0#1]; [0#1; 0#1; 0#1]]%Q.
 Proof. exact lap2_example. Qed.
+
+(* --- CausalIntegration: kind full / half / trapezoidal, removefirst; all sizes. The hypothesis
+   1 + 1 <> 0 (the code divides by 2.0) holds in Qc: C07a_two_nonzero_Qc. --- *)
+Theorem C07a_ci_meets_spec : forall (F : FieldS) k (rf : bool) s (x : list F) i, radd F (r1 F) (r1 F) <> r0 F ->
+  (if rf then S i else i) < length x ->
+  nth i (ci_mv F k rf s x) (r0 F) = ci_spec F k rf s i x.
+Proof. exact ci_meets_spec. Qed.
+Print Assumptions C07a_ci_meets_spec.
+Theorem C01_ci_adjoint : forall (F : FieldS) k (rf : bool) s (x y : list F), radd F (r1 F) (r1 F) <> r0 F ->
+  length y = (if rf then length x - 1 else length x) -> (if rf then 1 else 0) <= length x ->
+  dotu F (ci_mv F k rf s x) y = dotu F x (ci_rmv F k rf s y).
+Proof. exact ci_adjoint. Qed.
+Print Assumptions C01_ci_adjoint.
+Theorem C02_ci_fwd_linear : forall (F : FieldS) k (rf : bool) s n, radd F (r1 F) (r1 F) <> r0 F ->
+  (if rf then 1 else 0) <= n -> LinearOn F n (ci_mv F k rf s).
+Proof. exact ci_fwd_linear. Qed.
+Print Assumptions C02_ci_fwd_linear.
+Theorem C02_ci_adj_linear : forall (F : FieldS) k (rf : bool) s n, radd F (r1 F) (r1 F) <> r0 F ->
+  (if rf then 1 else 0) <= n -> LinearOn F (if rf then n - 1 else n) (ci_rmv F k rf s).
+Proof. exact ci_adj_linear. Qed.
+Print Assumptions C02_ci_adj_linear.
+Example C07a_two_nonzero_Qc : radd QcF (r1 QcF) (r1 QcF) <> r0 QcF.
+Proof. intro H. apply (f_equal this) in H. vm_compute in H. discriminate. Qed.
+Example C07a_ci_example : map this (ci_mv QcF Trapezoidal true q1 xsq) = [1#2; 3#1; 19#2; 22#1]%Q.
+Proof. vm_compute. reflexivity. Qed.
